@@ -61,6 +61,26 @@ Theorem hostname_refusal_order_independent :
 Proof. exact refusal_order_independent. Qed.
 Print Assumptions hostname_refusal_order_independent.
 
+(* Which refusal: a host name none of whose addresses may be connected to is refused as loopback (311) when every
+   address the loop looks at (IPv6 ones only when IPv6 is available) is a loopback one, as non-routable (310) as soon
+   as one of them is not; with no address to look at the resolution has failed *)
+Theorem hostname_refusal_is_loopback_iff_all_loopback :
+  forall allow v6ok answers,
+    forallb (fun b => negb (usable allow v6ok b)) answers = true ->
+    decide_hostname allow v6ok answers =
+      match considered v6ok answers with
+      | [] => ResolveFailed
+      | c => if forallb ip_is_loopback c then RefuseLoopback else RefuseNonroutable
+      end.
+Proof. exact decide_hostname_refusal_class. Qed.
+Print Assumptions hostname_refusal_is_loopback_iff_all_loopback.
+
+(* ... and that does not depend on the order of the resolver's answer either *)
+Theorem hostname_refusal_class_order_independent :
+  forall v6ok l l', Permutation l l' -> refusal_class v6ok l = refusal_class v6ok l'.
+Proof. exact refusal_class_order_independent. Qed.
+Print Assumptions hostname_refusal_class_order_independent.
+
 (* the code still has the shape the policy model mirrors (regenerated facts) *)
 Theorem connect_code_as_modelled :
   CONNECT_LITERAL_AS_MODELLED = true /\ CONNECT_LOOP_AS_MODELLED = true
